@@ -170,7 +170,7 @@ Definition path_ok (p : list frame) : bool := existsb frame_safe p.
    functions themselves are deliberately not part of any path: an exception has to be contained
    before it reaches loop() *)
 Definition peer_kind (k : ckind) : bool :=
-  match k with KRecvStub | KSend | KLoads | KLoadsCall | KDumps | KMethod | KValidate => true | _ => false end.
+  match k with KRecvStub | KSend | KLoads | KLoadsCall | KDumps | KMethod | KValidate | KFormatExc => true | _ => false end.
 Definition ctx_handshake : list (list frame) :=
   [ [(FJobHandleConn, KHandshake, 0); (FJobCall, KHandleConnection, 0); (FWorkerRun, KJob, 0)];
     [(FJobDeny, KHandshake, 0); (FThrEvents, KDenyConnection, 0)];
@@ -185,16 +185,37 @@ Definition anchors_of (f : fn) (p : ckind -> bool) : list frame :=
   map (fun a => (a_fn a, a_kind a, a_idx a))
       (filter (fun a => fn_eqb (a_fn a) f && p (a_kind a)) (t_anchors T)).
 Definition is_sendexc (k : ckind) : bool := ckind_eqb k KSendExc.
+Definition is_fmt (k : ckind) : bool := ckind_eqb k KFormatExc.
+(* statements inside the except clauses of the frame functions that format the caught exception eagerly: an exception
+   whose __str__ raises makes the handler itself raise, under whatever protects the handler's code *)
+Definition fmt_paths : list (list frame) :=
+  map (fun a => [a; (FWorkerRun, KJob, 0)]) (anchors_of FJobCall is_fmt)
+  ++ map (fun a => [a; (FJobCall, KHandleConnection, 0); (FWorkerRun, KJob, 0)]) (anchors_of FJobHandleConn is_fmt)
+  ++ map (fun a => [a; (FThrEvents, KDenyConnection, 0)]) (anchors_of FJobDeny is_fmt)
+  ++ map (fun a => [a]) (anchors_of FWorkerRun is_fmt)
+  ++ map (fun a => [a; (FMuxEvents, KHandleRequest, 0)]) (anchors_of FMuxHandleReq is_fmt)
+  ++ map (fun a => [a; (FMuxEvents, KHandleConnection, 0)]) (anchors_of FMuxHandleConn is_fmt)
+  ++ map (fun a => [a]) (anchors_of FMuxEvents is_fmt).
 Definition all_paths : list (list frame) :=
   flat_map (fun a => map (fun c => a :: c) ctx_handshake) (anchors_of FHandshake peer_kind)
   ++ flat_map (fun a => map (fun c => a :: c) ctx_request) (anchors_of FHandleRequest peer_kind)
   ++ flat_map (fun x => flat_map (fun a => map (fun c => a :: x :: c) ctx_request) (anchors_of FSendExc peer_kind))
               (anchors_of FHandleRequest is_sendexc)
-  ++ ctx_hook.
+  ++ ctx_hook
+  ++ fmt_paths.
 Definition containment_ok : bool := forallb path_ok all_paths.
+
+(* does an except clause of site [ord] of [f] contain a statement that may raise while formatting the exception? *)
+Definition may_raise (f : fn) (ord : nat) : bool :=
+  existsb (fun a => fn_eqb (a_fn a) f && ckind_eqb (a_kind a) KFormatExc
+                    && match a_handler a with Some h => Nat.eqb h ord | None => false end) (t_anchors T).
+Definition no_format (f : fn) : bool :=
+  forallb (fun a => negb (fn_eqb (a_fn a) f && ckind_eqb (a_kind a) KFormatExc
+                          && match a_handler a with Some _ => true | None => false end)) (t_anchors T).
 
 (* the facts the event machine needs *)
 Definition safe_tables : bool :=
+  no_format FMuxHandleReq && no_format FMuxEvents &&
   safe ok_swallow FWorkerRun (asite FWorkerRun KJob 0)
   && safe ok_ends FJobDeny (asite FJobDeny KHandshake 0)
   && safe ok_ends FMuxHandleConn (asite FMuxHandleConn KHandshake 0)
@@ -272,13 +293,29 @@ Fixpoint hr_loop (q : req) (fs : list fault) : res * option rkind * list fault :
   | [] => (RNorm true, if q_oneway q then None else Some (if q_stream q then RepError else RepNormal), [])
   end.
 
+(* an exception (from the script) raised by the except clause of site [ord] of [f] while it handles another one:
+   possible only where the tables show a formatting statement; protected by what encloses the try statement *)
+Definition in_handler (f : fn) (ord : nat) (fs : list fault) : option exc * list fault :=
+  if may_raise f ord then
+    match fs with
+    | x :: fs' =>
+        if fn_eqb (f_fn x) f then
+          match route f (outer_of f ord) (f_exc x) with
+          | Caught _ _ => (None, fs')
+          | Uncaught => (Some (f_exc x), fs')
+          end
+        else (None, fs)
+    | [] => (None, [])
+    end
+  else (None, fs).
+
 (* the user's disconnect hook, called at (f, KClientDisconnect 0): (exception leaving f's protection, rest) *)
 Definition hook_call (f : fn) (fs : list fault) : option exc * list fault :=
   match fs with
   | x :: fs' =>
       if fn_eqb (f_fn x) f then
         match route f (asite f KClientDisconnect 0) (f_exc x) with
-        | Caught _ _ => (None, fs')
+        | Caught ord _ => in_handler f ord fs'
         | Uncaught => (Some (f_exc x), fs')
         end
       else (None, fs)
@@ -321,10 +358,20 @@ Definition thr_job_request (q : req) (fs : list fault) : option rkind * bool * b
   | RNorm _ => (rep, true, false, true, fs1)
   | RExc e =>
       match route FJobCall (asite FJobCall KHandleRequest 0) e with
-      | Caught _ (ASwallow | AContinue) => (rep, true, false, true, fs1)
-      | Caught _ _ =>
-          let '(fe, hook, fs2) := thr_finally fs1 in
-          (rep, false, hook, match fe with None => true | Some e2 => worker_survives e2 end, fs2)
+      | Caught ord act =>
+          let '(hx, fs1') := in_handler FJobCall ord fs1 in
+          match hx with
+          | Some e1 =>        (* the handler itself raised: out of the loop through the finally clause *)
+              let '(fe, hook, fs2) := thr_finally fs1' in
+              (rep, false, hook, worker_survives (match fe with None => e1 | Some e2 => e2 end), fs2)
+          | None =>
+              match act with
+              | ASwallow | AContinue => (rep, true, false, true, fs1')
+              | _ =>
+                  let '(fe, hook, fs2) := thr_finally fs1' in
+                  (rep, false, hook, match fe with None => true | Some e2 => worker_survives e2 end, fs2)
+              end
+          end
       | Uncaught =>
           let '(fe, hook, fs2) := thr_finally fs1 in
           (rep, false, hook, worker_survives (match fe with None => e | Some e2 => e2 end), fs2)
@@ -372,18 +419,25 @@ Definition mux_connect (fs : list fault) : option rkind * bool * bool * list fau
 (* (reply, still registered?, hook ran?, loop dies?, rest) *)
 Definition mux_request (q : req) (fs : list fault) : option rkind * bool * bool * bool * list fault :=
   let '(r, rep, fs1) := hr_loop q fs in
-  let inactive :=
-    let '(x, fs2) := hook_call FMuxEvents fs1 in
-    match x with
-    | None => (rep, false, true, false, fs2)
-    | Some e2 => (rep, true, true, loop_dies FMuxLoop e2, fs2)    (* unregister and close are skipped *)
-    end in
   match r with
   | RNorm _ => (rep, true, false, false, fs1)
   | RExc e =>
       match route FMuxHandleReq (asite FMuxHandleReq KHandleRequest 0) e with
-      | Caught _ ARetTrue => (rep, true, false, false, fs1)
-      | Caught _ _ => inactive
+      | Caught ord act =>
+          let '(hx, fs1') := in_handler FMuxHandleReq ord fs1 in
+          match hx with
+          | Some e1 => (rep, true, false, events_dies FMuxEvents FMuxLoop KHandleRequest e1, fs1')
+          | None =>
+              match act with
+              | ARetTrue => (rep, true, false, false, fs1')
+              | _ =>
+                  let '(x, fs2) := hook_call FMuxEvents fs1' in
+                  match x with
+                  | None => (rep, false, true, false, fs2)
+                  | Some e2 => (rep, true, true, loop_dies FMuxLoop e2, fs2)
+                  end
+              end
+          end
       | Uncaught => (rep, true, false, events_dies FMuxEvents FMuxLoop KHandleRequest e, fs1)
       end
   end.
@@ -455,8 +509,18 @@ End Interp.
 Definition unguard_deny (T : tables) : tables :=
   {| t_sites := filter (fun s => negb (fn_eqb (s_fn s) FJobDeny)) (t_sites T);
      t_anchors := map (fun a => if fn_eqb (a_fn a) FJobDeny
-                                then {| a_fn := a_fn a; a_kind := a_kind a; a_idx := a_idx a; a_site := None |} else a)
+                                then {| a_fn := a_fn a; a_kind := a_kind a; a_idx := a_idx a; a_site := None; a_handler := a_handler a |} else a)
                       (t_anchors T);
+     t_hier := t_hier T; t_reply := t_reply T |}.
+
+(* the second defect (found 2026-10, fixed by fixes/C05_mux_log_format.diff): the except clauses of
+   SocketServer_Multiplex.handleRequest formatted the exception they had just caught with the % operator, outside any
+   protection.  The pre-fix table entry: a formatting statement in a handler of the try around daemon.handleRequest. *)
+Definition add_mux_format (T : tables) : tables :=
+  {| t_sites := t_sites T;
+     t_anchors := {| a_fn := FMuxHandleReq; a_kind := KFormatExc; a_idx := 0; a_site := None;
+                     a_handler := match find (fun a => fn_eqb (a_fn a) FMuxHandleReq && ckind_eqb (a_kind a) KHandleRequest) (t_anchors T) with
+                                  | Some a => a_site a | None => None end |} :: t_anchors T;
      t_hier := t_hier T; t_reply := t_reply T |}.
 
 (* mro of a class of the generated hierarchy *)
